@@ -12,9 +12,17 @@ C11 — property theorems.
   `not_hash_respects_eq_old_*` (the three legacy defects K11c, K11d, K11e).
 * `eq_refl`; `eq_symm`, `eq_trans` (values without hash maps / sets); `keys_interchangeable` (a key is found iff it equals the stored key's unfolding).
 * collection laws for all inputs.
-Guards: `WF` (acyclic: definitions mention earlier nodes only), `NoNaN` (a NaN is not `equal?` to
+Guards: `ListSigOK` (what is ASSUMED about list identities, see below), `WF` (acyclic: definitions mention earlier nodes only), `NoNaN` (a NaN is not `equal?` to
 itself — documented semantics, while an object holding one is identical to itself), `KeysDistinct`
 (the keys of a hash map are pairwise different, as in every real map).  All three are decidable.
+
+Identity of lists.  A node id stands for the pointer of a list's head cell, so "same identity ⇒ same
+value" is built into the representation (one id, one definition): the harness gives two real lists the
+same node exactly when `as_ptr_usize()` agrees, and otherwise separate nodes.  The second short cut of
+the code, `storage_ptr_eq ∧ equal next pointer`, is modelled by `ListSig` (storage, index, next) read off
+the real object; `ListSigOK` = lists with identical signatures have identical elements — a fact about
+im-lists that the theorems ASSUME and the correspondence run checks on every graph the harness builds.
+`not_eq_structural_k11j`: without the `next` conjunct (K11j, the code before 14209e55) it is false.
 -/
 import SteelVerif.C11.LemmasLoop
 import SteelVerif.C11.LemmasColl
@@ -25,7 +33,7 @@ namespace SteelVerif.C11
 
 /-- The full statement of the property for configuration `c`. -/
 def EqStructural (c : Cfg) : Prop :=
-  ∀ (g : Graph) (a b : Nat), WF g → NoNaN g → KeysDistinct g → a < g.length →
+  ∀ (g : Graph) (a b : Nat), WF g → NoNaN g → KeysDistinct g → ListSigOK g → a < g.length →
     eqImpl c g a b = eqSpec g a b
 
 theorem cfg_of_sound {c : Cfg} (h : c.sound = true) : c = Cfg.fixed := by
@@ -35,18 +43,18 @@ theorem cfg_of_sound {c : Cfg} (h : c.sound = true) : c = Cfg.fixed := by
 /-- **equal? is structural**: for the sound configuration the worklist with its visited set and
     pointer short cuts computes exactly equality of the unfoldings — for all graphs, any sharing. -/
 theorem eq_structural (c : Cfg) (hc : c.sound = true) : EqStructural c := by
-  intro g a b hwf hn hkd ha
+  intro g a b hwf hn hkd hsig ha
   rw [cfg_of_sound hc]
   unfold eqImpl
   apply topEq_spec hwf ha
-  have := loop_correct hwf hn hkd (size g a + size g b) [(a, b)] [] []
+  have := loop_correct hwf hn hkd hsig (size g a + size g b) [(a, b)] [] []
     (by simpa using ha) (by simp) (by intro q hq; simp at hq) (by simp)
   simpa [specP] using this
 
 /-- x = (list 1 2); left = (list x x); right = (list (list 3 4) (list 1 2)) -/
 def witnessD10 : Graph :=
   [.leaf (.int 1), .leaf (.int 2), .leaf (.int 3), .leaf (.int 4),
-   .list [0, 1], .list [4, 4], .list [2, 3], .list [0, 1], .list [6, 7]]
+   .list [0, 1] none, .list [4, 4] none, .list [2, 3] none, .list [0, 1] none, .list [6, 7] none]
 
 /-- v = #(1 2), w = #(1 2) (immutable); left = #(v v); right = #(w w) -/
 def witnessVec : Graph :=
@@ -56,9 +64,29 @@ def witnessVec : Graph :=
     unfoldings differ. -/
 theorem not_eq_structural_old : ¬ EqStructural Cfg.legacy := by
   intro h
-  have := h witnessD10 5 8 (by decide) (by decide) (by decide) (by decide)
+  have := h witnessD10 5 8 (by decide) (by decide) (by decide) (by decide) (by decide)
   revert this
   decide
+
+/-- y = (list 1 2 3 4) fills one node; a = (append y (list 4)), b = (append y (list 5)): two different head
+    cells over the SAME element storage and index, with different next nodes (ids 5 = a, 6 = b). -/
+def witnessK11j : Graph :=
+  [.leaf (.int 1), .leaf (.int 2), .leaf (.int 3), .leaf (.int 4), .leaf (.int 5),
+   .list [0, 1, 2, 3, 3] (some ⟨100, 4, 201⟩), .list [0, 1, 2, 3, 4] (some ⟨100, 4, 202⟩),
+   .list [5, 5] none, .list [5, 6] none]
+
+/-- **Negation witness** (defect K11j): a short cut that compares the storage and the index of the first
+    node only takes two different lists for equal — also nested, through the visited key. -/
+theorem not_eq_structural_k11j : ¬ EqStructural Cfg.k11j := by
+  intro h
+  have := h witnessK11j 5 6 (by decide) (by decide) (by decide) (by decide) (by decide)
+  revert this
+  decide
+
+/-- the same graph satisfies the guards and is answered correctly by the fixed algorithm, also nested -/
+example : WF witnessK11j ∧ ListSigOK witnessK11j ∧ eqSpec witnessK11j 5 6 = false ∧
+    eqImpl Cfg.fixed witnessK11j 5 6 = false ∧ eqImpl Cfg.fixed witnessK11j 7 8 = false ∧
+    eqImpl Cfg.k11j witnessK11j 7 8 = true := by decide
 
 /-- the other half of D10: equal immutable vectors that occur twice are rejected -/
 theorem eq_old_wrong_on_vectors :
@@ -71,33 +99,33 @@ example : WF witnessD10 ∧ NoNaN witnessD10 ∧ KeysDistinct witnessD10 ∧
 
 /-- a value with sharing, hash maps keyed by collections and nested sets, inside the guards -/
 def witnessMap : Graph :=
-  [.leaf (.int 1), .leaf (.int 2), .list [0, 1], .list [0, 1], .set [2], .set [3],
-   .map [(2, 4), (0, 2)], .map [(0, 3), (3, 5)], .list [6, 6], .list [7, 6]]
+  [.leaf (.int 1), .leaf (.int 2), .list [0, 1] none, .list [0, 1] none, .set [2], .set [3],
+   .map [(2, 4), (0, 2)], .map [(0, 3), (3, 5)], .list [6, 6] none, .list [7, 6] none]
 
 example : WF witnessMap ∧ NoNaN witnessMap ∧ KeysDistinct witnessMap ∧
     eqSpec witnessMap 8 9 = true ∧ eqImpl Cfg.fixed witnessMap 8 9 = true := by decide
 
 /-- equal? is reflexive (on NaN-free values) -/
 theorem eq_refl (c : Cfg) (hc : c.sound = true) (g : Graph) (a : Nat) (hwf : WF g) (hn : NoNaN g)
-    (hkd : KeysDistinct g) (ha : a < g.length) : eqImpl c g a a = true := by
-  rw [eq_structural c hc g a a hwf hn hkd ha]
+    (hkd : KeysDistinct g) (hsig : ListSigOK g) (ha : a < g.length) : eqImpl c g a a = true := by
+  rw [eq_structural c hc g a a hwf hn hkd hsig ha]
   exact spec_refl hwf hn hkd a ha
 
 /-- equal? is symmetric on values without hash maps / hash sets (`NoHashed`: the part of "equivalence
     relation" that is proved; symmetry through hash maps needs a counting argument that is not done). -/
 theorem eq_symm (c : Cfg) (hc : c.sound = true) (g : Graph) (a b : Nat) (hwf : WF g) (hn : NoNaN g)
-    (hkd : KeysDistinct g) (hh : NoHashed g) (ha : a < g.length) (hb : b < g.length) :
+    (hkd : KeysDistinct g) (hsig : ListSigOK g) (hh : NoHashed g) (ha : a < g.length) (hb : b < g.length) :
     eqImpl c g a b = eqImpl c g b a := by
-  rw [eq_structural c hc g a b hwf hn hkd ha, eq_structural c hc g b a hwf hn hkd hb]
+  rw [eq_structural c hc g a b hwf hn hkd hsig ha, eq_structural c hc g b a hwf hn hkd hsig hb]
   exact spec_symm hwf hh a b ha hb
 
 /-- equal? is transitive on values without hash maps / hash sets -/
 theorem eq_trans (c : Cfg) (hc : c.sound = true) (g : Graph) (a b d : Nat) (hwf : WF g) (hn : NoNaN g)
-    (hkd : KeysDistinct g) (hh : NoHashed g) (ha : a < g.length) (hb : b < g.length)
+    (hkd : KeysDistinct g) (hsig : ListSigOK g) (hh : NoHashed g) (ha : a < g.length) (hb : b < g.length)
     (h1 : eqImpl c g a b = true) (h2 : eqImpl c g b d = true) : eqImpl c g a d = true := by
-  rw [eq_structural c hc g a b hwf hn hkd ha] at h1
-  rw [eq_structural c hc g b d hwf hn hkd hb] at h2
-  rw [eq_structural c hc g a d hwf hn hkd ha]
+  rw [eq_structural c hc g a b hwf hn hkd hsig ha] at h1
+  rw [eq_structural c hc g b d hwf hn hkd hsig hb] at h2
+  rw [eq_structural c hc g a d hwf hn hkd hsig ha]
   exact spec_trans hwf hh a b d ha hb h1 h2
 
 example : NoHashed witnessD10 ∧ NoHashed witnessVec := by decide
@@ -137,10 +165,10 @@ example : let g : Graph := [.leaf (.int 1), .leaf (.int 2), .set [0, 1], .set [1
 /-- **Keys are interchangeable**: `HashMap::get` / `HashSet::contains` with query `k` finds the stored
     key `k'` exactly when the two have equal unfoldings. -/
 theorem keys_interchangeable (c : Cfg) (hc : c.sound = true) (g : Graph) (k k' : Nat) (hwf : WF g)
-    (hn : NoNaN g) (hkd : KeysDistinct g) (hk : k < g.length) :
+    (hn : NoNaN g) (hkd : KeysDistinct g) (hsig : ListSigOK g) (hk : k < g.length) :
     keyEqImpl c g k k' = eqSpec g k k' := by
   unfold keyEqImpl
-  rw [eq_structural c hc g k k' hwf hn hkd hk]
+  rw [eq_structural c hc g k k' hwf hn hkd hsig hk]
   cases hs : eqSpec g k k'
   · simp
   · simp [hash_respects_eq c hc g k k' hs]
